@@ -243,8 +243,10 @@ vector<string> ParameterList::getMatchingParameterNames(const string& pattern) c
       }
       pos1 = pos2 + g.length();
     }
+    // Without any '*' the pattern is the name itself; otherwise the last piece must end the name.
     if (flag &&
-        ((g.length() == 0) || (pos1 == name.length()) || (name.rfind(g) == name.length() - g.length())))
+        (stj.getTokens().size() == 1 ? name == pattern :
+        ((g.length() == 0) || (pos1 == name.length()) || (name.rfind(g) == name.length() - g.length()))))
       pNames.push_back(name);
   }
 
